@@ -181,6 +181,10 @@ func genC11(seed uint64, tier string) *Scenario {
 			}
 		}
 		sort.SliceStable(cfg.Preempts, func(i, j int) bool { return cfg.Preempts[i].AfterSync < cfg.Preempts[j].AfterSync })
+		if r.chance(1, 3) {
+			cfg.SyncStallProb = 5 + uint32(r.n(40))
+			cfg.SyncStallMax = 50_000 + r.i64(2_000_000)
+		}
 	case m < 9:
 		sc.Mode = "fine-grained"
 		cfg.Policy = vsim.Fair
